@@ -540,15 +540,21 @@ theorem eqv_key {s : Store} {k c : VCell} {a : Nat} (hk : k.isKeyScalar = true)
   simp only [eqv, hp, Bool.false_and, Bool.false_eq_true, if_false, derefArg, get_imm hp, bind_ok,
     get_of_cell ha, eqvCells_key hk]
 
-/-- `(eq? x 'sym)`: symbols are interned, the test is identity of the reference -/
+/-- `(eq? x 'sym)`: the test is identity of the reference, given that symbols are interned (`hi`: no
+    other cell holds the same name — the heap invariant `Interned` of C03/C18; since fix 77f2b17 two
+    distinct symbol cells would be compared by name) -/
 theorem eqv_symbol {s : Store} {q a : Nat} {n : Text} {c : VCell} (hq : s.cells[q]? = some (.sym n))
-    (ha : s.cells[a]? = some c) : eqv s (.ptr q) (.ptr a) = .ok (decide (q = a)) := by
+    (ha : s.cells[a]? = some c) (hi : c = .sym n → q = a) :
+    eqv s (.ptr q) (.ptr a) = .ok (decide (q = a)) := by
   by_cases h : q = a
   · subst h; simp [eqv, VCell.isPtr]
   · have : (VCell.ptr q == VCell.ptr a) = false := by simp [h]
     simp only [eqv, VCell.isPtr, Bool.true_and, this, Bool.false_eq_true, if_false, derefArg,
       get_of_cell hq, get_of_cell ha, bind_ok, h, decide_false]
-    cases c <;> rfl
+    cases c <;> try rfl
+    rename_i m
+    have hne : ¬ (n = m) := fun hnm => h (hi (by rw [hnm]))
+    simp [eqvCells, hne]
 
 theorem mem_spec {s : Store} {test : Store → VCell → VCell → Outcome Bool} {obj : VCell}
     {p : Nat → Bool} {v c : VCell} {as : List Nat} (hl : Spine s v as c)
